@@ -95,6 +95,8 @@ pub(crate) use graph::adjacent_node::AdjacentNode;
 pub mod algorithms;
 pub mod generators;
 pub mod readwrite;
+#[cfg(feature = "verif_hooks")]
+pub mod verif_hooks;
 
 mod graph_specs;
 pub use graph_specs::{
